@@ -13,7 +13,7 @@ from __future__ import annotations
 import math
 from fractions import Fraction as Fr
 import torch
-from ..common import G5, Rng, Report, ft, it, budget
+from ..common import G5, Rng, Report, ft, it, run_driver
 from ..registry import BY_NAME, Batch, W4, new_metric
 from ..progs import Prog, run_real, model_results, compare_with_model
 from ..engine import observe, obs_json
@@ -461,6 +461,22 @@ def witnesses(rep: Report, found: Found, progs):
     check_auroc_stream(rep, found, {"num_tasks": 2, "max_num_samples": 3},
                        [Batch((ft([0.5, 0.25], shape=(2, 1)), it([1, 0], shape=(2, 1))))], progs)
 
+    # AUROC: merge of a wrapped target copies the buffer in slot order and puts the cursor at 0: the next
+    # sample evicts the target's NEWEST sample (slot 0) instead of an oldest one
+    cfg = {"num_tasks": 1, "max_num_samples": 3}
+    spec = BY_NAME[AUROC]
+    p = Prog(spec, cfg)
+    t1 = Batch((ft([0.5, 0.125]), it([1, 0])))
+    t2 = Batch((ft([0.75, 0.25]), it([1, 1])))
+    a1 = Batch((ft([0.625, 0.375, 0.875]), it([0, 1, 0])))
+    nb = Batch((ft([0.5]), it([0])))
+    p.u(0, t1); p.u(0, t2); p.u(1, a1); p.m(0, [1]); p.u(0, nb); p.o(0)
+    real, inst = run_real(p, keep=True)
+    progs.append((p, real, 1e-6))
+    pools = last_samples(live_of(AUROC, cfg, [t1, t2]) + live_of(AUROC, cfg, [a1]) + [cols_of(nb, 1)], 6)
+    rep.case(nontrivial_key=("auroc", "witness-update-after-merge"))
+    compare_merge(rep, found, AUROC, cfg, p, inst[0], pools, [], "update-after-merge|overwrites-live-slot", "update-after-merge")
+
 # ------------------------------------------------------------------ run
 
 def run(rep: Report):
@@ -503,22 +519,29 @@ def run(rep: Report):
         if bad is not None:
             k, msg = bad
             rep.broke("correspondence:window-model", f"{p.spec.name} op #{k}: {msg}", {"line": line[:4000], "op": k})
+    # (c) the Lean queue specification (TE/Spec/Window.lean, `spec.<Class>` packs) against the real
+    #     update-granular classes on the pure update streams (no merges: the spec has no cursor to merge)
+    sp = [(p, real, tol, line) for (p, real, tol), line in zip(progs, lines)
+          if p.spec.name in CLASSES and all(op[0] in ("u", "o") for op in p.ops)]
+    souts = run_driver([line.replace("prog ", "prog spec.", 1) for _, _, _, line in sp])
+    for (p, real, tol, line), so in zip(sp, souts):
+        bad = compare_with_model(p, real, [x.strip() for x in so.split(" | ")], tol)
+        if bad is not None:
+            k, msg = bad
+            rep.broke("correspondence:window-spec", f"spec.{p.spec.name} op #{k}: {msg}", {"line": line[:4000], "op": k})
     rep.streams["programs"] = len(progs)
+    rep.streams["spec_programs"] = len(sp)
     found.flush(rep)
 
 
 def search(rep: Report):
     """the run itself compares the real code with an oracle independent of the model at every step;
-    the search widens it (thorough bounds) when only the model/proof side broke."""
-    if rep.tier != "thorough":
-        saved = rep.tier
-        rep.tier = "thorough"
-        try:
-            rng_rep = Report(rep.prop, "thorough", rep.seed + 1)
-            run(rng_rep)
-            rep.violations += rng_rep.violations
-        finally:
-            rep.tier = saved
+    when only the model / proof side broke, the same comparison is widened to the thorough bounds
+    with another seed, looking for a concrete failing input of the property on the real code."""
+    wide = Report(rep.prop, "thorough", rep.seed + 1)
+    run(wide)
+    rep.violations += wide.violations
+    rep.evaluations += wide.evaluations
 
 # ------------------------------------------------------------------ replay
 
@@ -555,11 +578,12 @@ def replay(payload) -> bool:
             ok = ok and close(vals(r[1][0]), oracle_updates(cls, cfg, bs), tol_of(cls)) is not False
         return ok
     if kind == "merge":
-        inst, data, merged = {}, {}, {}
+        inst, data, merged, room = {}, {}, {}, {}
+        capk = "max_num_samples" if cls == AUROC else "max_num_updates"
 
         def get(i):
             if i not in inst:
-                inst[i] = new_metric(spec, cfg); data[i] = []; merged[i] = None
+                inst[i] = new_metric(spec, cfg); data[i] = []; merged[i] = None; room[i] = cfg[capk]
             return inst[i]
         pools_extra = []
         for op in rp["ops"]:
@@ -577,8 +601,13 @@ def replay(payload) -> bool:
                     merged[op[1]] = live_of(cls, cfg, data[op[1]])
                 for j in op[2]:
                     merged[op[1]] = merged[op[1]] + live_of(cls, cfg, data[j])
+                    room[op[1]] += room[j]
                 inst[op[1]].merge_state([inst[j] for j in op[2]])
-        pools = merged[0] + (live_of(cls, cfg, pools_extra) if cls == AUROC and pools_extra else pools_extra)
+        # after a merge the newest `room` entries (allocated buffer size) of pool ++ later updates are expected
+        if cls == AUROC:
+            pools = last_samples(merged[0] + [cols_of(b, cfg.get("num_tasks", 1)) for b in pools_extra], room[0])
+        else:
+            pools = (merged[0] + pools_extra)[-room[0]:]
         r = observe(inst[0])
         exp_w, _ = merge_oracle(cls, cfg, pools, [])
         return r[0] == "ok" and close(vals(r[1][-1]), exp_w, tol_of(cls)) is not False
